@@ -30,9 +30,9 @@ _common = dict(level='proof',
     trusted_base=['contracts/prelude.h stubs (char_traits::copy as havoc + ghost-index equalities)', 'spec/utf_spec.h (oracle written from the Unicode Standard encoding forms and the property\'s list of tolerated forms)',
                   'ghost function PHI (units produced by the input suffix): defined by well-founded recursion; its recurrence is assumed at the visited offset only, side conditions 1<=ADV<=remaining and UNITS<=c*ADV are proved; the induction over steps that lifts per-step facts to whole sequences is a stated meta-argument'],
     assumptions=['per-step (one loop iteration from an arbitrary state satisfying the invariant) facts are machine-checked; "the output is the concatenation of the per-character encodings" follows by induction over steps (not machine-checked)'])
-PROPS['C01'] = dict(_common, explanation='every conversion loop: each step consumes exactly one source character (spec reader) and emits exactly its standard encoding in the target form (spec writer), identically in all validation modes; per-character encoders/decoders proved against Table 3-6 / D91 over all 2^32 values; reader-inverts-writer lemmas')
+PROPS['C01'] = dict(_common, explanation='every conversion loop: each step consumes exactly one source character (spec reader) and emits exactly its standard encoding in the target form (spec writer), identically in all validation modes; per-character encoders/decoders proved against Table 3-6 / D91 over all 2^32 values; reader-inverts-writer lemmas; the 12 pointer-overload wrappers of st_utf_conv.h pass the whole range, the requested mode and flag to the loops and return exactly what they produce (buffer / std::basic_string / string_view / literal forwards and the wchar_t / char8_t wrappers are not extracted)')
 PROPS['C02'] = dict(_common, explanation='validator, repairer, decoder and every conversion loop agree with the structural well-formedness spec on every step; check_validity fails exactly at a unit that cannot stand; other modes substitute and never fail for malformed input')
-PROPS['C03'] = dict(_common, explanation='memory safety, termination and two-pass agreement of every conversion loop for unbounded length: reads stay in the source, the convert pass writes exactly the PHI(0) units the measure pass counted into a block of exactly that size, no ST_ASSERT reachable')
+PROPS['C03'] = dict(_common, explanation='memory safety, termination and two-pass agreement of every conversion loop for unbounded length: reads stay in the source, the convert pass writes exactly the PHI(0) units the measure pass counted into a block of exactly that size, no ST_ASSERT reachable; the 12 pointer-overload wrappers of st_utf_conv.h, over those contracts: size() equals the measured number of units, terminating NUL, storage class by size, early return for empty results, unicode_error exactly when the convert pass fails and then nothing is leaked')
 
 # bounded real-state cross-checks: whole measure+convert vs. the reference transcoding (thorough tier; also used for replay)
 unit('utf_bounded', functions=FUNCS, spec=None, harness='harness/utf_all.c', include=['spec/utf_spec.h', 'spec/utf_ghost.h'])
